@@ -25,7 +25,8 @@ RULE = ("formula strings drawn from a grammar (x, a0..a3, integers, floats, + - 
         "three labels and at least one evaluation point where all power bases are positive")
 EXPLANATION = LEVEL_TEXT
 TRUSTED = ["hand model ESRVerif/Model/ToList.lean, Model/ToListSelect.lean (tied by correspondence on the serialised sympy trees: class name, is_number, is_symbol, str, exact value, args / as_two_terms)",
-           "harness/extractors/tolist.py (special-case table, to_list literals, label renaming, the skeleton of string_to_node matched statement by statement, check_operators' chain, call-site flags)",
+           "harness/extractors/tolist.py + harness/extractors/_norm_c18.py (special-case table, to_list branches, label renaming, the skeleton of string_to_node, check_operators' chain, call-site flags: each function is run symbolically into a normal form that is matched against the shape the Lean model has; the normalisations, all value-preserving and never dropping or adding an evaluation that can raise, are: substitution of pure locals / self attributes / list items by the expression assigned (renames, hoisted temporaries, tuple and chained assignment, tuple unpacking of as_two_terms / string_to_node / check_tree), conditional expression = if/else, early return = result variable, else-after-return, pass = return None, guard inversion, negation normal form (double negation, De Morgan, not == / != / is / in), str(<int>) = literal, tuple = list after `in`, range(len(L)) = enumerate(L) item loops, comprehension = append / += loop, one level of private-helper inlining, literal-index or literal-tuple-loop forms of the four try blocks (unrolled, constant tests folded), 'a'+str(k) = 'a%d'%k = 'a{}'.format(k) = f'a{k}' for an enumerate index; anything else fails closed)",
+           "class invariant used by the translator: every DecoratedNode built from an expression has the attributes __init__ assigns unconditionally (read off __init__ on every run), a basis is a list of three lists; sympy's as_two_terms returns a pair, string_to_node / check_tree return triples",
            "sympy 1.14: sympify/kernS/evalf/powsimp/factor/str/== on numbers (which tree each parse variant yields is observed, not modelled)",
            "numpy.nanargmin (first minimal non-NaN index; ValueError on an all-NaN array) — modelled by hand, exercised through the real string_to_node",
            "harness/oracle_tree.py (independent evaluator) and sympy.lambdify of the formula parsed with esr.fitting.sympy_symbols.sympy_locs",
@@ -39,7 +40,7 @@ ASSUMPTIONS = ["str() of a sympy number denotes its value (Float: 15 significant
                "an integer label beyond the range of a double (>= 2^1024 - 2^970) is not a number for generator.is_float (float(<int>) raises OverflowError): model and in-basis oracle follow the code"]
 # tables whose committed version may stand in as a hand-written model when the translator cannot read the source;
 # value = the correspondence that then ties it to the code (common.prove / common.decide)
-FALLBACK = {'ToList': 'DecoratedNode.to_list / string_to_node on grammar formulas vs the Lean to_list and selection models', 'Shape': 'basis tables: labels_to_shape correspondence'}
+FALLBACK = {'ToList': 'real DecoratedNode / to_list / relabelling / check_operators / string_to_node (its string_to_expr calls traced in order, six flag settings) and the string API on grammar formulas vs the Lean to_list, relabel and selection models built from the committed table, at thorough depth', 'Shape': 'basis tables: labels_to_shape correspondence'}
 MODELLED = ["generator.py:DecoratedNode.__init__", "generator.py:DecoratedNode.to_list", "generator.py:DecoratedNode.count_nodes",
             "generator.py:DecoratedNode.is_unity", "generator.py:string_to_node", "generator.py:string_to_expr", "generator.py:labels_to_shape",
             "generator.py:is_float", "fit_single.py:fit_from_string", "fit_single.py:string_to_aifeyn", "generator.py:check_tree",
@@ -951,20 +952,35 @@ def run(ctx):
 
 def _tables(ctx):
     """order / flags of the parse variants and the call sites' flags as regenerated from the staged source (the model reads
-    the same tables from Generated/ToList.lean); if the source shape is not recognised the documented order is used and the
-    correspondence is reported broken"""
+    the same tables from Generated/ToList.lean).  If the translator cannot read the source and the property falls back on the
+    committed table (FALLBACK, common.prove), the harness drives the correspondence with the tables of THAT file — the ones the
+    executable model was built from: the comparison with the real run (string_to_expr calls traced in order, the returned
+    tree under six flag settings, the string API end to end) is then the whole tie.  Without the fallback the documented
+    order is used and the correspondence is reported broken."""
     from extractors import tolist as tlx
     try:
         variants, defaults = tlx.s2n_skeleton(ctx.stage)
-        _ST["variants"] = [(k, e, g_) for k, e, g_, _ in variants]
-        _ST["call_sites"] = {name: (ef, ck, ae) for name, ef, ae, ck, _ in tlx.call_sites(ctx.stage, defaults)}
+        sites = tlx.call_sites(ctx.stage, defaults)
         _ST["tables_ok"] = True
+        ctx.extra["select_tables_from"] = "regenerated from the staged source"
     except Exception as e:
-        _ST["variants"] = [(k, e_, (k, e_) == ALLOW_EVAL_VARIANT) for k, e_ in DOC_COMBOS]
-        _ST["call_sites"] = {"fit_from_string": (True, False, True), "string_to_aifeyn": (True, False, True)}
-        _ST["tables_ok"] = False
-        ctx.disagree("corr:string_to_node-select", "the skeleton of string_to_node / its call sites could not be read from the source (%s): "
-                     "the model still has the last recognised variant table" % (str(e)[:300],))
+        variants = sites = None
+        if "ToList" in ((getattr(ctx, "proof", None) or {}).get("fallback") or {}):
+            try:
+                variants, sites = tlx.committed_tables(os.path.join(common.LEAN, "ESRVerif", "Generated", "ToList.lean"))
+                _ST["tables_ok"] = True
+                ctx.extra["select_tables_from"] = "committed table (translator fallback: %s)" % (str(e)[:200],)
+            except Exception as e2:
+                e = e2
+                variants = sites = None
+        if variants is None:
+            variants = [(k, e_, (k, e_) == ALLOW_EVAL_VARIANT, 0) for k, e_ in DOC_COMBOS]
+            sites = [("fit_from_string", True, True, False, 0), ("string_to_aifeyn", True, True, False, 0)]
+            _ST["tables_ok"] = False
+            ctx.disagree("corr:string_to_node-select", "the skeleton of string_to_node / its call sites could not be read from the source (%s): "
+                         "the model still has the last recognised variant table" % (str(e)[:300],))
+    _ST["variants"] = [(k, e, g_) for k, e, g_, _ in variants]
+    _ST["call_sites"] = {name: (ef, ck, ae) for name, ef, ae, ck, _ in sites}
     ctx.extra["parse_variants"] = [dict(index=i, kern=k, evaluate=e, behind_allow_eval=g_) for i, (k, e, g_) in enumerate(_ST["variants"])]
     ctx.extra["call_sites"] = {n: dict(evalf=v[0], check_ops=v[1], allow_eval=v[2]) for n, v in _ST["call_sites"].items()}
 
